@@ -246,6 +246,50 @@ def a64_parse(mn, optext, where):
     die(where, "instruction '%s' not supported by the model" % mn)
 
 
+A64_CONDNUM = {"eq": 0, "ne": 1, "cs": 2, "cc": 3, "mi": 4, "pl": 5, "vs": 6, "vc": 7, "hi": 8, "ls": 9, "ge": 10, "lt": 11,
+               "gt": 12, "le": 13, "al": 14, "nv": 15}
+
+
+def a64_encode(ins, idx):
+    """the 32-bit A64 encoding of a decoded instruction at instruction index `idx` (Arm ARM C4/C6); written
+    from the encoding diagrams, independently of the text parser: used by the cross-check to compare
+    with the bytes llvm-mc produced from the source file"""
+    def rn(o): return o[1] if o[0] == "x" else 31
+    def simm(v, bits):
+        if not (-(1 << (bits - 1)) <= v < (1 << (bits - 1))): raise AssertionError("immediate range")
+        return v & ((1 << bits) - 1)
+    k = ins[0]
+    if k == "addsubReg":
+        return (1 << 31) | ((ins[1] == "sub") << 30) | (bool(ins[2]) << 29) | (0b01011 << 24) | (rn(ins[5]) << 16) | (rn(ins[4]) << 5) | rn(ins[3])
+    if k in ("addsubImm", "addsubsImm"):
+        return (1 << 31) | ((ins[1] == "sub") << 30) | ((k == "addsubsImm") << 29) | (0b100010 << 23) | (ins[4] << 10) | (rn(ins[3]) << 5) | rn(ins[2])
+    if k == "adcsbc":
+        return (1 << 31) | ((ins[1] == "sub") << 30) | (bool(ins[2]) << 29) | (0b11010000 << 21) | (rn(ins[5]) << 16) | (rn(ins[4]) << 5) | rn(ins[3])
+    if k == "mul":
+        return (0b10011011000 << 21) | (rn(ins[3]) << 16) | (31 << 10) | (rn(ins[2]) << 5) | rn(ins[1])
+    if k == "umulh":
+        return (0b10011011110 << 21) | (rn(ins[3]) << 16) | (31 << 10) | (rn(ins[2]) << 5) | rn(ins[1])
+    if k == "csel":
+        op, o2 = {"sel": (0, 0), "inc": (0, 1), "inv": (1, 0), "neg": (1, 1)}[ins[1]]
+        return (1 << 31) | (op << 30) | (0b11010100 << 21) | (rn(ins[4]) << 16) | (A64_CONDNUM[ins[5]] << 12) | (o2 << 10) | (rn(ins[3]) << 5) | rn(ins[2])
+    if k == "logic":
+        opc = {"and": 0, "orr": 1, "eor": 2, "ands": 3}[ins[1]]
+        return (1 << 31) | (opc << 29) | (0b01010 << 24) | (rn(ins[4]) << 16) | (rn(ins[3]) << 5) | rn(ins[2])
+    if k in ("ldp", "stp"):
+        mode = {"post": 0b001, "pre": 0b011, "offset": 0b010}[ins[1]]
+        return (0b10 << 30) | (0b101 << 27) | (mode << 23) | ((k == "ldp") << 22) | (simm(ins[5] // 8, 7) << 15) | (rn(ins[3]) << 10) | (rn(ins[4]) << 5) | rn(ins[2])
+    if k in ("ldr", "str"):
+        opc = 1 if k == "ldr" else 0
+        if ins[1] == "offset":
+            return (0b11 << 30) | (0b111001 << 24) | (opc << 22) | ((ins[4] // 8) << 10) | (rn(ins[3]) << 5) | rn(ins[2])
+        return (0b11 << 30) | (0b111000 << 24) | (opc << 22) | (simm(ins[4], 9) << 12) | ((0b01 if ins[1] == "post" else 0b11) << 10) | (rn(ins[3]) << 5) | rn(ins[2])
+    if k == "b": return (0b000101 << 26) | simm(ins[1] - idx, 26)
+    if k == "bcond": return (0b01010100 << 24) | (simm(ins[2] - idx, 19) << 5) | A64_CONDNUM[ins[1]]
+    if k == "cbz": return (1 << 31) | (0b011010 << 25) | (bool(ins[1]) << 24) | (simm(ins[3] - idx, 19) << 5) | rn(ins[2])
+    if k == "ret": return (0b1101011001011111000000 << 10) | (ins[1] << 5)
+    raise AssertionError(k)
+
+
 A64_BRANCHES = {"b": 1, "bcond": 2, "cbz": 3}          # kind -> index of the target in the tuple
 A64_ENDS = ("ret", "b")
 
@@ -474,6 +518,41 @@ def t_lean(ins):
     raise AssertionError(k)
 
 
+def t_encode(ins):
+    """the 16-bit Thumb encoding of a decoded instruction (ARMv6-M ARM A5.2/A6.7), None for `bl`"""
+    N = lambda r: T_ORDER.index(r)
+    def rl(regs):
+        v = 0
+        for r in regs: v |= 1 << N(r)
+        return v
+    k = ins[0]
+    if k == "addsReg": return (0b0001100 << 9) | (N(ins[3]) << 6) | (N(ins[2]) << 3) | N(ins[1])
+    if k == "subsReg": return (0b0001101 << 9) | (N(ins[3]) << 6) | (N(ins[2]) << 3) | N(ins[1])
+    if k == "movLo": return (0b0001110 << 9) | (0 << 6) | (N(ins[2]) << 3) | N(ins[1])                 # ADDS Rd, Rn, #0
+    if k == "alu":
+        opc = {"ands": 0b0000, "eors": 0b0001, "adcs": 0b0101, "sbcs": 0b0110, "orrs": 0b1100, "muls": 0b1101}[ins[1]]
+        return (0b010000 << 10) | (opc << 6) | (N(ins[3]) << 3) | N(ins[2])
+    if k == "rsbsZero": return (0b010000 << 10) | (0b1001 << 6) | (N(ins[2]) << 3) | N(ins[1])
+    if k == "lslsImm": return (0b00000 << 11) | (ins[3] << 6) | (N(ins[2]) << 3) | N(ins[1])
+    if k == "lsrsImm": return (0b00001 << 11) | ((ins[3] % 32) << 6) | (N(ins[2]) << 3) | N(ins[1])
+    if k == "uxth": return (0b1011001010 << 6) | (N(ins[2]) << 3) | N(ins[1])
+    if k == "movHi": return (0b01000110 << 8) | ((N(ins[1]) >> 3) << 7) | (N(ins[2]) << 3) | (N(ins[1]) & 7)
+    if k in ("ldrImm", "strImm"):
+        load = k == "ldrImm"
+        if ins[2] == "sp": return ((0b10011 if load else 0b10010) << 11) | (N(ins[1]) << 8) | (ins[3] // 4)
+        return ((0b01101 if load else 0b01100) << 11) | ((ins[3] // 4) << 6) | (N(ins[2]) << 3) | N(ins[1])
+    if k == "ldm": return (0b11001 << 11) | (N(ins[1]) << 8) | rl(ins[2])
+    if k == "stm": return (0b11000 << 11) | (N(ins[1]) << 8) | rl(ins[2])
+    if k == "push": return (0b1011010 << 9) | (bool(ins[2]) << 8) | rl(ins[1])
+    if k == "pop": return (0b1011110 << 9) | (bool(ins[2]) << 8) | rl(ins[1])
+    if k == "addSpImm": return (0b10101 << 11) | (N(ins[1]) << 8) | (ins[2] // 4)
+    if k == "incSp": return (0b101100000 << 7) | (ins[1] // 4)
+    if k == "decSp": return (0b101100001 << 7) | (ins[1] // 4)
+    if k == "bx": return (0b010001110 << 7) | (N(ins[1]) << 3)
+    if k == "bl": return None
+    raise AssertionError(k)
+
+
 T_ENDS = ("bx", "pop")
 
 
@@ -670,11 +749,12 @@ def read_objdump(text, with_raw):
         if with_raw:
             m = re.match(r"^\s*([0-9a-f]+):\s+((?:[0-9a-f]{2} )+)\s*\t(\S+)\s*(.*)$", line)
             if m and cur is not None:
-                dis[cur].append((int(m.group(1), 16), m.group(3), m.group(4).strip(), len(m.group(2).split())))
+                bs = m.group(2).split()
+                dis[cur].append((int(m.group(1), 16), m.group(3), m.group(4).strip(), len(bs), int("".join(reversed(bs)), 16)))
         else:
             m = re.match(r"^\s*([0-9a-f]+):\s+(\S+)\s*(.*)$", line)
             if m and cur is not None:
-                dis[cur].append((int(m.group(1), 16), m.group(2), m.group(3).strip(), 4))
+                dis[cur].append((int(m.group(1), 16), m.group(2), m.group(3).strip(), 4, None))
     return dis
 
 
@@ -693,15 +773,15 @@ def a64_crosscheck(path, short, routines):
     try:
         obj = os.path.join(tmp, "x.o")
         run(["llvm-mc", "--triple=aarch64", "-filetype=obj", "-o", obj, path], short)
-        out = run(["llvm-objdump", "-d", "-M", "no-aliases", "--no-show-raw-insn", "-j", ".text", obj], short)
-        merged = merge_blocks(read_objdump(out, False), [r[0] for r in routines], short)
+        out = run(["llvm-objdump", "-d", "-M", "no-aliases", "-j", ".text", obj], short)
+        merged = merge_blocks(read_objdump(out, True), [r[0] for r in routines], short)
         for (g, gwhere, body, _) in routines:
             got = merged.get(g)
             if got is None: die(gwhere, "cross-check: '%s' not found in the object file" % g)
             if len(got) != len(body):
                 die(gwhere, "cross-check: llvm-mc produced %d instructions for '%s', the translator %d" % (len(got), g, len(body)))
-            index = {a: i for i, (a, _, _, _) in enumerate(got)}
-            for (addr, mn, optext, _), (ins, where, text) in zip(got, body):
+            index = {a: i for i, (a, _, _, _, _) in enumerate(got)}
+            for i, ((addr, mn, optext, nbytes, word), (ins, where, text)) in enumerate(zip(got, body)):
                 w = "%s [llvm-objdump %x: %s %s]" % (where, addr, mn, optext)
                 optext = re.sub(r"\s*<[^>]*>\s*$", "", optext)
                 theirs = a64_parse(mn, re.sub(r"\b0x([0-9a-f]+)$", r"L\1", optext) if (mn == "b" or mn.startswith("b.") or mn in ("cbz", "cbnz")) else optext, w)
@@ -712,6 +792,8 @@ def a64_crosscheck(path, short, routines):
                     theirs = theirs[:pos] + (index[a],) + theirs[pos + 1:]
                 if theirs != ins:
                     die(w, "cross-check: llvm-mc assembled '%s', the translator produced '%s' from '%s'" % (a64_lean(theirs), a64_lean(ins), text))
+                if nbytes != 4 or a64_encode(ins, i) != word:
+                    die(w, "cross-check: llvm-mc encoded %08x, the translator's reading '%s' of '%s' encodes as %08x" % (word, a64_lean(ins), text, a64_encode(ins, i)))
     finally:
         shutil.rmtree(tmp, ignore_errors=True)
 
@@ -733,7 +815,7 @@ def t_encodability(short, routines):
             got = [x for x in merged.get(g, []) if not x[1].startswith(".")]
             if len(got) != len(body):
                 die(gwhere, "encodability check: llvm-mc produced %d instructions for '%s', the translator %d" % (len(got), g, len(body)))
-            for (addr, mn, optext, nbytes), (ins, where, text) in zip(got, body):
+            for (addr, mn, optext, nbytes, word), (ins, where, text) in zip(got, body):
                 w = "%s [llvm-objdump %x: %s %s]" % (where, addr, mn, optext)
                 optext = optext.split("@")[0].strip()
                 if mn == "bl":
@@ -741,6 +823,8 @@ def t_encodability(short, routines):
                     continue
                 if nbytes != 2: die(w, "encodability check: not a 16-bit encoding")
                 theirs = t_parse(mn, optext, w, True)
+                if t_encode(ins) != word:
+                    die(w, "encodability check: llvm-mc encoded %04x, the translator's reading '%s' of '%s' encodes as %04x" % (word, t_lean(ins), text, t_encode(ins)))
                 if theirs != ins:
                     die(w, "encodability check: llvm-mc reads the encoding as '%s', the translator decoded '%s' from '%s'" % (t_lean(theirs), t_lean(ins), text))
     finally:
